@@ -1,7 +1,7 @@
 (* (builtin name (value ...)) -> (val v) | (nil) | (err): a direct call of a built-in function, with
    an empty random stream. (fmt bits) / (parse "s"): the float formatter and parser models. *)
 From Coq Require Import List ZArith NArith Bool.
-From YS Require Import Base.Sexp Num.F64 Num.Decimal Yarn.Ast Yarn.Value Yarn.Eval Yarn.RunnerWire.
+From YS Require Import Base.Sexp Num.F64 Num.Decimal Yarn.Ast Yarn.Value Yarn.Eval Yarn.RunnerWire Yarn.Timed.
 Import ListNotations.
 
 Definition run_builtin_case (args : list sexp) : sexp :=
@@ -36,4 +36,13 @@ Definition run_parse_case (args : list sexp) : sexp :=
               | None => tagged "err" []
               end
   | _ => bad "parse: shape"
+  end.
+
+(* (wait bits form) -> (waited "line" 1 <nanoseconds the command sleeps>): the statement after the
+   command is the next element, after at least one answer "waiting" (the command is started by one
+   Next call and polled by the following ones). *)
+Definition run_wait_case (args : list sexp) : sexp :=
+  match args with
+  | [SZ b; SZ _] => tagged "waited" [SS (STR "line"); SZ 1; SZ (Z.max 0 (wait_nanos (of_bits b)))]
+  | _ => bad "wait: shape"
   end.
